@@ -88,6 +88,93 @@ fn run(cfgv: &Value, seed: u64, code: &str, file: &str, fs: &FsSpec, plan: &Faul
     }
 }
 
+/// the same call through the repo's real-disk reader (`DefaultFileReader`: `File::open`, the trait's `parent`)
+fn run_real(cfgv: &Value, seed: u64, code: &str, file: &str) -> Result<(String, String), String> {
+    let cfg = exec::make_config(cfgv, seed).map_err(|o| format!("to_config: {:?}", o))?;
+    let reader = vh::DefaultFileReader {};
+    let r = catch_unwind(AssertUnwindSafe(|| {
+        vh::rewrite_js(code.to_string(), file, &cfg, &reader).map(|res| {
+            let content = vh::print_js(&res.code, &res.source_map, &res.original_source_map, &cfg).into_owned();
+            let status = res.transform_status.map(|s| s.status.to_string().to_lowercase()).unwrap_or_default();
+            (status, content)
+        })
+    }));
+    match r {
+        Err(_) => {
+            let (m, l) = exec::take_last_panic().unwrap_or_default();
+            Err(format!("panic at {l}: {m}"))
+        }
+        Ok(Err(e)) => Err(format!("rewrite error: {e}")),
+        Ok(Ok(x)) => Ok(x),
+    }
+}
+
+/// K7 scratch directory: the simulated FS written to the real disk, the file reached through symbolic links.
+/// Returns the name to pass to the rewriter. Variants: 0 plain file, 1 the file is a link to a file in another
+/// folder (the map stays beside the link), 2 the file's folder is a link to the folder holding file and map.
+fn materialise(root: &std::path::Path, fs: &FsSpec, file: &str, code: &str, map_path: &str, variant: u64) -> std::io::Result<(String, u64)> {
+    use std::fs;
+    let at = |p: &str| root.join(p.trim_start_matches('/'));
+    let fdir = dir_of(file);
+    let beside = dir_of(map_path) == fdir && fdir != "/" && !fdir.is_empty();
+    let variant = if variant == 2 && !beside { 1 } else { variant };
+    let base = std::path::Path::new(file).file_name().map(|b| b.to_string_lossy().to_string()).unwrap_or_default();
+    let phys_dir = root.join("__store/dir");
+    let place = |p: &str| -> std::path::PathBuf {
+        // variant 2: everything inside the file's folder physically lives in __store/dir
+        if variant == 2 && dir_of(p) == fdir {
+            phys_dir.join(std::path::Path::new(p).file_name().unwrap_or_default())
+        } else {
+            at(p)
+        }
+    };
+    if variant == 2 {
+        fs::create_dir_all(&phys_dir)?;
+        if let Some(pp) = at(&fdir).parent() {
+            fs::create_dir_all(pp)?;
+        }
+        std::os::unix::fs::symlink(&phys_dir, at(&fdir))?;
+    }
+    for (k, n) in &fs.nodes {
+        if !k.starts_with('/') {
+            continue;
+        }
+        let dst = place(k);
+        match n {
+            FsNode::Dir => fs::create_dir_all(&dst)?,
+            _ => {
+                if let Some(pp) = dst.parent() {
+                    fs::create_dir_all(pp)?;
+                }
+                fs::write(&dst, fs_content(fs, k))?;
+            }
+        }
+    }
+    match variant {
+        1 => {
+            let store = root.join("__store/aaa");
+            fs::create_dir_all(&store)?;
+            fs::write(store.join(&base), code)?;
+            if let Some(pp) = at(file).parent() {
+                fs::create_dir_all(pp)?;
+            }
+            std::os::unix::fs::symlink(store.join(&base), at(file))?;
+        }
+        _ => {
+            let dst = place(file);
+            if let Some(pp) = dst.parent() {
+                fs::create_dir_all(pp)?;
+            }
+            fs::write(dst, code)?;
+        }
+    }
+    Ok((at(file).to_string_lossy().to_string(), variant))
+}
+
+fn fs_content(fs: &FsSpec, k: &str) -> Vec<u8> {
+    fs.content(k).unwrap_or_default()
+}
+
 /// first half of a text, cut at a character boundary
 fn half(s: &str) -> String {
     let mut n = s.len() / 2;
@@ -848,6 +935,54 @@ impl Engine for C10 {
             }
             st(&mut rep, "probe:fs-history-run", 1);
         }
+        // K7: the repo's real-disk reader over a scratch directory materialised from the simulated FS, the file
+        // reached directly or through symbolic links, against the simulated reader on the same (prefixed) names
+        if let (Some(path), Some(_)) = (&p.expected_open, &p.orig_map) {
+            let simple_nodes = p.fs.nodes.iter().all(|(k, n)| !k.starts_with('/') || !k.contains("..") && !k.contains('\\') && matches!(n, FsNode::Text(_) | FsNode::B64(_) | FsNode::Dir));
+            let plain_name = p.file.starts_with('/') && !p.file.starts_with("//") && !p.file.contains('\\') && !p.file.contains("..") && !p.file.ends_with('/');
+            if p.ref_kind == "external-relative" && plain_name && simple_nodes && !p.parent_none && path.starts_with('/') && !path.contains("..") && p.fs.nodes.contains_key(path) {
+                let sel = fnv64(p.program.as_bytes()) ^ p.prng_seed;
+                let root = std::env::temp_dir().join(format!("simrw-k7-{}-{:016x}", std::process::id(), sel));
+                let _ = std::fs::remove_dir_all(&root);
+                let cfg = cfg_for(true, false);
+                match materialise(&root, &p.fs, &p.file, &with_ref, path, sel % 3) {
+                    Ok((real_file, variant)) => {
+                        let prefix = root.to_string_lossy().to_string();
+                        let mut fs2 = FsSpec::default();
+                        for (k, n) in &p.fs.nodes {
+                            // names relative to the working directory (decoys) stay as they are and are not written to disk
+                            fs2.nodes.insert(if k.starts_with('/') { format!("{prefix}{k}") } else { k.clone() }, n.clone());
+                        }
+                        events += 2;
+                        let sim = run(&cfg, p.prng_seed, &with_ref, &real_file, &fs2, &clean_plan).map(|o| (o.status, o.content));
+                        let real = run_real(&cfg, p.prng_seed, &with_ref, &real_file);
+                        let vname = ["plain-file", "linked-file", "linked-folder"][variant as usize];
+                        st(&mut rep, &format!("fault:real-disk:{vname}"), 1);
+                        rep.cells.push(format!("real-disk:{vname}"));
+                        match (&sim, &real) {
+                            (Ok((s1, c1)), Ok((s2, c2))) => {
+                                if s1 != s2 || c1 != c2 {
+                                    let plain = |c: &str, r: &Result<Out, String>| -> bool { r.as_ref().ok().and_then(|o| smap::split_trailer(c).map(|(_, t)| value_eq_json(&t, &o.r))).unwrap_or(false) };
+                                    let o = run(&cfg, p.prng_seed, &with_ref, &real_file, &fs2, &clean_plan);
+                                    viol.push(Violation::new("K7", "K7:real-reader-differs", format!("[real disk, {vname}] the repo's DefaultFileReader over a scratch directory holding the same files gives another result than the simulated reader (status {s2} vs {s1}; real result carries the plain rewrite map: {})", plain(c2, &o))));
+                                } else if s1 == "modified" {
+                                    st(&mut rep, "probe:real-disk-agrees-with-simulated-reader", 1);
+                                }
+                            }
+                            (Err(_), Err(_)) => {}
+                            _ => {
+                                viol.push(Violation::new("K7", "K7:real-reader-differs", format!("[real disk, {vname}] one of the real and the simulated reader fails, the other does not: real={:?} sim={:?}", real.as_ref().map(|x| &x.0), sim.as_ref().map(|x| &x.0))));
+                            }
+                        }
+                        log.push(format!("real-disk {vname}: agree={}", sim == real));
+                    }
+                    Err(e) => {
+                        rep.notes.push(format!("K7 scratch directory not built: {}", e.kind()));
+                    }
+                }
+                let _ = std::fs::remove_dir_all(&root);
+            }
+        }
         log::set_max_level(log::LevelFilter::Off);
         let mut seen = BTreeSet::new();
         viol.retain(|v| seen.insert(v.key.clone()));
@@ -938,13 +1073,14 @@ impl Engine for C10 {
     }
 
     fn rule(&self) -> String {
-        "a case is one (program, file, original map O, reference kind, FS state, benign fault plan, fatal fault plan) executed under the matrix {chain on,off} x {comments on,off} x regimes {clean, benign-only, fatal} (regimes run separately) plus the program without the reference; oracles K1 trailer, K2 composition (independent VLQ codec + greatest-lower-bound lookup) or plain-map fallback, K3 benign=clean bytes, K4 resolved path, K5 text preservation, K6 FS history (the map file goes missing / O / O2 / denied / malformed between successive calls; each call must reflect the current state). distinct = hash of (O shape, reference kind, look-alike flag, fault plan shape); every case is non-trivial (at least 6 real rewrites, faults injected whenever the reference is external)".into()
+        "a case is one (program, file, original map O, reference kind, FS state, benign fault plan, fatal fault plan) executed under the matrix {chain on,off} x {comments on,off} x regimes {clean, benign-only, fatal} (regimes run separately) plus the program without the reference; oracles K1 trailer, K2 composition (independent VLQ codec + greatest-lower-bound lookup) or plain-map fallback, K3 benign=clean bytes, K4 resolved path, K5 text preservation, K6 FS history (the map file goes missing / O / O2 / denied / malformed between successive calls; each call must reflect the current state), K7 real disk (for plain POSIX names with a relative external reference the simulated FS is written to a scratch directory - the file as a plain file, as a symbolic link to a file stored in another folder with the map beside the link, or inside a symbolically linked folder - and the repo's DefaultFileReader must produce the byte-identical result to the simulated reader on the same names). distinct = hash of (O shape, reference kind, look-alike flag, fault plan shape); every case is non-trivial (at least 6 real rewrites, faults injected whenever the reference is external)".into()
     }
 
     fn components(&self) -> Value {
         json!({
             "real": ["rewrite_js", "print_js", "extract_source_map", "chain_source_maps", "RewriterConfig::to_config", "FileReader::parent (trait default)", "swc codegen source maps", "sourcemap crate (decode, lookup_token, SourceMapBuilder)", "base64"],
-            "stub": ["WasmFileReader / DefaultFileReader::read (SimFileReader over a simulated FS)", "wasm-bindgen glue"],
+            "stub": ["WasmFileReader (SimFileReader over a simulated FS; DefaultFileReader::read is replaced the same way everywhere except K7)", "wasm-bindgen glue"],
+            "real in K7 only": ["DefaultFileReader (File::open + its parent()) over a scratch directory with symbolic links, as a differential against the simulated reader"],
             "oracle (harness-own)": ["VLQ codec", "source-map JSON decode", "greatest-lower-bound lookup", "sourceRoot application", "base64", "path join"]
         })
     }
@@ -969,6 +1105,7 @@ impl Engine for C10 {
             "probe:fatal-fault-after-half-of-body",
             "probe:eintr-during-map-read",
             "probe:fs-history-run",
+            "probe:real-disk-agrees-with-simulated-reader",
             "probe:usable-map-without-parent-folder",
             "probe:logger-switched-on",
         ]
